@@ -85,6 +85,7 @@ def run(repo, res, tier):
     sk_bash.fb_rule(repo, res, tier)
     sk_bash.matchfn_rule(repo, res, tier)
     sk_bash.fresh_rule(repo, res, tier)
+    sk_bash.subacc_rule(repo, res, tier)
     c04.shared_cmd_ids(repo, res)
     res.floor("PIPE", res.count("PIPE"), 9)
     res.floor("SK-WALK", res.count("SK-WALK"), 30)
